@@ -57,7 +57,7 @@ def trees():
     return st.recursive(leaf, extend, max_leaves=8)
 
 
-template = st.one_of(st.none(), st.none(), st.just('tag'), st.just('tag'), st.integers(0, len(CONSTS) - 1))
+template = st.one_of(st.none(), st.none(), st.just('tag'), st.just('tag'), st.integers(0, len(CONSTS) - 1), st.just('nested'))      # 'nested': evaluate 7*6 on the same parser, hand nothing to the setter
 listener = st.lists(template, max_size=3)
 listeners = st.fixed_dictionaries(dict((k, st.lists(listener, max_size=3)) for k in KINDS))
 
@@ -77,7 +77,7 @@ def final_value(templates_by_listener, tag, default):
     v = default
     for tpl in templates_by_listener:
         for t in tpl:
-            if t is None:
+            if t is None or t == 'nested':
                 continue
             v = tag if t == 'tag' else CONSTS[t]
     return v
@@ -215,11 +215,19 @@ def check(case):
     P.set_variable('v_err', _errors().NUM)
     problems = []
 
+    def nested():
+        r = P.parse('7*6')
+        if r != {'result': 42, 'error': None}:
+            problems.append('a listener evaluating 7*6 on the same parser got %r' % (r,))
+
     def mk(kind, idx, tpl):
         def cell_l(cell, setter):
             lab = cell.label
             log.append((idx, kind, lab, cell.row.index, cell.col.index, cell.row.is_absolute, cell.col.is_absolute))
             for t in tpl:
+                if t == 'nested':
+                    nested()
+                    continue
                 setter(None if t is None else (cell_tag(cell.row.index, cell.col.index) if t == 'tag' else CONSTS[t]))
 
         def range_l(start, end, setter):
@@ -231,16 +239,25 @@ def check(case):
                 elif c.label != c.label.upper():
                     problems.append('range %s label %r is not upper case' % (nm, c.label))
             for t in tpl:
+                if t == 'nested':
+                    nested()
+                    continue
                 setter(None if t is None else ([start.row.index, start.col.index, end.row.index, end.col.index] if t == 'tag' else CONSTS[t]))
 
         def var_l(name, setter):
             log.append((idx, kind, name))
             for t in tpl:
+                if t == 'nested':
+                    nested()
+                    continue
                 setter(None if t is None else ('var:' + name if t == 'tag' else CONSTS[t]))
 
         def func_l(name, args, setter):
             log.append((idx, kind, name, list(args)))
             for t in tpl:
+                if t == 'nested':
+                    nested()
+                    continue
                 setter(None if t is None else ('fn:' + name if t == 'tag' else CONSTS[t]))
         return {'callCellValue': cell_l, 'callRangeValue': range_l, 'callVariable': var_l, 'callFunction': func_l}[kind]
     for kind in KINDS:
@@ -316,9 +333,11 @@ def classes(case):
         last = None
         for tpl in L[k]:
             for tt in tpl:
-                if tt is not None:
+                if tt is not None and tt != 'nested':
                     last = tt
-        if last is not None and last != 'tag' and not CONSTS[last] and CONSTS[last] is not None:
+        if any('nested' in tpl for tpl in L[k]):
+            out.add('nested-evaluation-in-listener')
+        if last is not None and last not in ('tag', 'nested') and not CONSTS[last] and CONSTS[last] is not None:
             out.add('falsy-final:' + k)
         if any(tpl and tpl[-1] is None and any(x is not None for x in tpl) for tpl in L[k]):
             out.add('none-after-value')
@@ -345,9 +364,9 @@ def key(case):
 LAWS = [
     Law('events', check, strategy=case_s(), classes=classes, key=key, quick=5000, thorough=200000, shards=(16, 16),
         required=('range-reversed', 'range-anti-diagonal', 'range-absolute', 'cell-lower', 'cell-absolute', 'beyond-xfd-or-1048576', 'multi-listener',
-                  'falsy-final:callCellValue', 'falsy-final:callRangeValue', 'falsy-final:callVariable', 'falsy-final:callFunction', 'none-after-value', 'events>=3-of-2-kinds', 'call-raises-error', 'range-one-line-mixed-markers'),
+                  'falsy-final:callCellValue', 'falsy-final:callRangeValue', 'falsy-final:callVariable', 'falsy-final:callFunction', 'none-after-value', 'events>=3-of-2-kinds', 'call-raises-error', 'range-one-line-mixed-markers', 'nested-evaluation-in-listener'),
         nontrivial=lambda c: bool(set(classes(c)) & set(['events>=3-of-2-kinds', 'range-reversed'])) or any(x.startswith('falsy-final') for x in classes(c)),
-        rule='generated tree of cell / range / variable references, recording and built-in calls (incl. a host function and an aggregate that report an error by raising it), array literals and = comparisons; 0-3 listeners per event kind, each handing 0-3 values (None, a tag derived from the reference, or a constant incl. 0, FALSE, "", a list) to the setter: '
+        rule='generated tree of cell / range / variable references, recording and built-in calls (incl. a host function and an aggregate that report an error by raising it), array literals and = comparisons; 0-3 listeners per event kind, each handing 0-3 values (None, a tag derived from the reference, or a constant incl. 0, FALSE, "", a list) to the setter, or running a complete evaluation on the same parser in between: '
              'the listener call log equals the post-order walk (each listener once per event, subscription order) with canonical payloads (upper-cased label, zero-based row/column, markers; normalised range corners whose labels re-parse to their coordinates); '
              'call arguments and the formula value follow the "last non-None value wins, else blank / registered value" rule; non-trivial = at least 3 events of 2 kinds, a range with unordered corners, or a falsy final setter value'),
 ]
